@@ -21,6 +21,7 @@ import (
 	"sort"
 	"strings"
 	"sync"
+	"sync/atomic"
 	"time"
 
 	"github.com/martian-lang/martian/martian/core"
@@ -134,6 +135,7 @@ type TARun struct {
 	stalls             int
 	slowQuiet          int
 	queueMu            sync.Mutex
+	progress           int64 // events logged so far (read by the watchdog)
 }
 
 type stderrLogger struct{}
@@ -154,6 +156,7 @@ func taInit() {
 }
 
 func (r *TARun) log(kind, job, detail string) *TAEvent {
+	atomic.AddInt64(&r.progress, 1)
 	r.Events = append(r.Events, TAEvent{Seq: len(r.Events), Kind: kind, Job: job, Detail: detail, Inc: r.Inc})
 	return &r.Events[len(r.Events)-1]
 }
@@ -936,6 +939,20 @@ func (r *TARun) Restart() error {
 	ctx := context.Background()
 	ps, err := r.rt.ReattachToPipestance(r.Opts.Psid, r.PsDir, r.Src, r.Opts.SrcPath,
 		r.Opts.MroPaths, "verif", nil, true, false, ctx)
+	for try := 0; err != nil && try < 3 && r.Opts.FullReset &&
+		(strings.Contains(err.Error(), "unlinkat") || strings.Contains(err.Error(), "directory not empty")); try++ {
+		// In this in-process emulation the goroutines of the "dead" mrp (e.g. `go partialVdrKill()` started
+		// when a join was submitted) are still running and may create a file in a directory the new
+		// incarnation is removing (Node.reset, FullStageReset).  A dead process has no goroutines:
+		// let them finish and re-attach again.
+		os.Remove(path.Join(r.PsDir, "_lock"))
+		time.Sleep(time.Duration(50*(try+1)) * time.Millisecond)
+		if err2 := r.newRuntime(); err2 != nil {
+			return err2
+		}
+		ps, err = r.rt.ReattachToPipestance(r.Opts.Psid, r.PsDir, r.Src, r.Opts.SrcPath,
+			r.Opts.MroPaths, "verif", nil, true, false, ctx)
+	}
 	if err != nil {
 		return fmt.Errorf("reattach: %v", err)
 	}
@@ -1068,13 +1085,26 @@ func (r *TARun) RunTimed(d time.Duration) {
 		defer close(done)
 		r.Run()
 	}()
-	select {
-	case <-done:
-	case <-time.After(d):
-		buf := make([]byte, 1<<16)
-		buf = buf[:runtime.Stack(buf, true)]
-		r.Final = "hang"
-		r.ErrMsg = string(buf)
+	// the deadline is about PROGRESS, not wall-clock: on a loaded machine a healthy run is slow, but it
+	// keeps logging events (every scheduler pass is one); a hang is `d` without a single new event
+	last, lastAt := int64(-1), time.Now()
+	tick := time.NewTicker(250 * time.Millisecond)
+	defer tick.Stop()
+	for {
+		select {
+		case <-done:
+			return
+		case <-tick.C:
+			if p := atomic.LoadInt64(&r.progress); p != last {
+				last, lastAt = p, time.Now()
+			} else if time.Since(lastAt) > d {
+				buf := make([]byte, 1<<16)
+				buf = buf[:runtime.Stack(buf, true)]
+				r.Final = "hang"
+				r.ErrMsg = string(buf)
+				return
+			}
+		}
 	}
 }
 
